@@ -897,7 +897,7 @@ fn cmp(e: &V, a: &J, path: &str, out: &mut Vec<Mis>) {
                 if y.to_bits() != x.to_bits() {
                     if *x == 0.0 && y == 0.0 {
                         push("neg-zero")
-                    } else if ulp_distance(*x, y) <= 4 {
+                    } else if ulp_distance(*x, y) <= 4 && x.is_sign_negative() == y.is_sign_negative() && y != 0.0 {
                         // the result is a neighbouring double: inexact decimal → binary conversion
                         push("float-ulp-drift")
                     } else {
@@ -1033,7 +1033,7 @@ impl Check for C33 {
         "C33"
     }
     fn cases(&self, tier: Tier) -> u64 {
-        tier.pick(480, 6_000)
+        tier.pick(400, 4_000)
     }
     fn budget_s(&self, tier: Tier) -> u64 {
         // generous: the first case of every worker may have to wait for the
@@ -1041,7 +1041,7 @@ impl Check for C33 {
         tier.pick(240, 600)
     }
     fn min_nontrivial(&self, tier: Tier) -> u64 {
-        tier.pick(150, 1500)
+        tier.pick(120, 1200)
     }
     fn in_panic_watch(&self) -> bool {
         false
@@ -1092,6 +1092,7 @@ impl Check for C33 {
             if let V::Obj(kvs) = &m {
                 if kvs.is_empty() && case % 50 != 7 {
                     g.budget = budget.max(2);
+                    g.st = Stats::default();
                     continue;
                 }
             }
